@@ -513,6 +513,15 @@ func c19Run1(cs *c19Case, out *vh.Out) {
 	if len(r.hands) > 0 {
 		out.Stat("case with pooled hand-out")
 	}
+	if len(r.recvd) > len(r.hands) {
+		out.Stat("case where Get discards a pooled conn (unusable or expired)")
+	}
+	if len(r.closedOrder) > 0 {
+		out.Stat("case with closed conns")
+	}
+	if cs.maxConns == 0 {
+		out.Stat("case with MaxConnsPerKey 0")
+	}
 	if len(r.leakedOrder) > 0 {
 		out.Stat("case with Return after shutdown")
 	}
@@ -537,8 +546,17 @@ func c19Run1(cs *c19Case, out *vh.Out) {
 
 	// stop the ticker goroutine of pools that were not shut down by the case itself
 	vcoop.Activate(nil)
-	if r.shutCalls == 0 && !stuck {
-		r.p.Close()
+	healthy := !stuck
+	for _, t := range r.s.Tasks {
+		if !t.Done || t.Panic != nil {
+			healthy = false // the lock may be held for ever: do not touch the pool again
+		}
+	}
+	if r.shutCalls == 0 && healthy {
+		func() {
+			defer func() { recover() }()
+			r.p.Close()
+		}()
 	}
 }
 
@@ -703,7 +721,7 @@ func c19Gen(r *vh.Rng) *c19Case {
 	if r.Chance(25) {
 		nw = 1 + r.Intn(8)
 	}
-	shut := r.Chance(60)
+	shut := r.Chance(45)
 	shutAt := r.Intn(nw)
 	for w := 0; w < nw; w++ {
 		var p []string
@@ -721,6 +739,9 @@ func c19Gen(r *vh.Rng) *c19Case {
 		}
 		if shut && w == shutAt {
 			at := r.Intn(len(p) + 1)
+			if r.Chance(50) {
+				at = len(p)
+			}
 			p = append(p[:at:at], append([]string{"s"}, p[at:]...)...)
 		}
 		cs.progs = append(cs.progs, p)
